@@ -93,6 +93,12 @@ theorem printf_refines_ref_of_some (render : Val → Option Bytes) (args : List 
     · cases h
       cases fmtVal <;> simp_all [Out.Equiv]
 
+/-- non-vacuity of `printf_refines_ref_of_some`: the loop produces an output, and an error -/
+example : (printfFormat (fun _ => some b!"V") [.str b!"<%3s|%-3s|%03s|%v>" none, .str b!"a" none,
+      .str b!"b" none, .str b!"c" none, .nil none]).map Except.toOption = some (some b!"<  a|b  |00c|V>") ∧
+    (printfFormat (fun _ => some b!"V") [.str b!"%s" none, .num F64.one]).map Except.toOption
+      = some none := by decide +kernel
+
 /-- `printfFormat = printfRef` up to the error message, for all formats and argument lists,
     provided `render` is defined on the arguments (see `printf_refines_ref_needs_render`) -/
 theorem printf_refines_ref (render : Val → Option Bytes) (args : List Val)
@@ -178,6 +184,10 @@ theorem printf_first_directive_error (render : Val → Option Bytes) (rest : Byt
   simp only [printfFormat, List.length_cons]
   exact printfLoop_dir_error render _ _ 1 rest [] m h
 
+/-- non-vacuity of `printf_first_directive_error`: an unknown code, a dangling `%`, a lone `-` -/
+example : (parseDirective b!"d").toOption = none ∧ (parseDirective b!"").toOption = none ∧
+    (parseDirective b!"-s").toOption = none := by decide +kernel
+
 /-- a width beyond 65536 is an error, for any digit string (leading zeros or not), … -/
 theorem width_limit_digits (render : Val → Option Bytes) (ds tail : Bytes) (sp : Option SpecRef)
     (args : List Val) (hne : ds ≠ []) (hds : ∀ x ∈ ds, isDigitB x = true)
@@ -197,6 +207,13 @@ theorem width_limit_digits_neg (render : Val → Option Bytes) (ds tail : Bytes)
   · apply printf_first_directive_error render _ sp args "width too large"
     rw [parseDirective_negWidth ds tail hds ht, if_neg he, if_pos hn]
 
+/-- non-vacuity of `width_limit_digits` / `width_limit_digits_neg`: the digit string `065537`
+    (leading zero) followed by `s` -/
+example : b!"065537" ≠ [] ∧ (∀ x ∈ b!"065537", isDigitB x = true) ∧
+    (∀ x, (b!"s").head? = some x → isDigitB x = false) ∧ digitsToNat b!"065537" > 65536 := by
+  refine ⟨by decide, by decide, ?_, by decide +kernel⟩
+  intro x hx; cases hx; decide
+
 /-- `%<n>s` with `n > 65536` is an error whatever the arguments -/
 theorem width_limit (render : Val → Option Bytes) (n : Nat) (sp : Option SpecRef) (args : List Val)
     (hn : n > 65536) :
@@ -212,7 +229,8 @@ theorem width_limit_neg (render : Val → Option Bytes) (n : Nat) (sp : Option S
     (by intro x hx; cases hx; decide) (by rw [digitsToNat_natToBytes]; exact hn)
 
 /-- up to the limit the directive is accepted: `%<n>s` applied to a string writes it padded to
-    `n` bytes (pad byte `0` or space) -/
+    `n` bytes with SOME pad byte (WEAK: the statement does not say which; the pad byte is `0`
+    or space by `Spec.parseDirective` together with `printf_refines_ref`) -/
 theorem width_ok_below (render : Val → Option Bytes) (n : Nat) (sp sp' : Option SpecRef) (a : Bytes)
     (more : List Val) (hn : n ≤ 65536) :
     ∃ pad, printfFormat render (.str (37 :: (natToBytes n ++ [115])) sp :: .str a sp' :: more)
